@@ -13,7 +13,15 @@ private mount namespace (harness/sys/ns_enter.sh): "separate" = the tool's folde
 (link(2)/rename(2) between them fail with EXDEV) and "samefs" = chroot into ONE overlay of the whole root whose
 upper layer is a private tmpfs, the tool's folder being /var/lib/waagent/verif-c17-setup (link(2) into /etc/azure,
 /usr/sbin, /usr/lib/azure-proxy-agent, /usr/lib/systemd/system succeeds; a probe proves it before any replay).
-The expected contents are the same in both (Setup.tla: BackupIsSeparate)."""
+The expected contents are the same in both (Setup.tla: BackupIsSeparate).
+
+Environment dimension "the wall clock is stepped between two commands" (Setup.tla: ClockSteps): the statement scenarios
+and a seeded tenth of the behaviours in which a restore finds a backup are replayed once more, in both layouts, with
+the time stamps of every file of the tool's world moved between two commands (replay.py step_clock: +180 s = the clock
+was stepped back 3 minutes, -8 days = 8 days have passed).  Chosen over an LD_PRELOAD CLOCK_REALTIME shim because the
+tool is a static-friendly Rust binary that also spawns /bin/sh children and file time stamps come from the kernel, not
+from the shimmed clock: moving the stamps is exactly what a later command can observe of a step.  The expected contents
+are the same (the design reads neither the clock nor a time stamp)."""
 import hashlib
 import json
 import os
@@ -34,8 +42,9 @@ SCRATCH = os.path.join(util.BUILD, "c17", "run-%d" % os.getpid())
 LOCS = ("exe", "cfg", "ebpf", "unit")
 LAYOUTS = ("separate", "samefs")
 SAMEFS_SUFFIX = "@samefs"
+CLOCKS = {"back3m": 180, "fwd8d": -8 * 86400}      # name -> shift of the files' time stamps in seconds
 ACTIONS = ["Begin", "DoCall", "DoCheckBackup", "DoProbe", "DoCopyIn", "DoCopyUnit", "DoBackupFile",
-           "DoRemoveUnit", "DoDeleteFile", "DoDeleteBackup"]
+           "DoRemoveUnit", "DoDeleteFile", "DoDeleteBackup", "ClockStep"]
 # command-line spellings tried for "restore without backup deletion" (args.rs: positional `delete_backup: bool`)
 RESTORE_F_SPELLINGS = [["restore", "false"], ["restore", "--delete-backup=false"], ["restore", "--delete-backup", "false"],
                        ["restore", "--delete_backup=false"], ["restore", "--", "false"], ["restore", "0"],
@@ -51,6 +60,10 @@ ASSUME = [
     "link(2) succeeds, proven by a probe before every worker's replays); mixed layouts (/etc and /usr on different file "
     "systems, tool folder on one of them) are not run; overlayfs stands for the VM's root file system as far as "
     "link/rename/O_TRUNC semantics of files created inside the sandbox go",
+    "a step of the wall clock between two commands is realised by moving the access/modification times of every file and "
+    "directory the tool reads or writes (system locations, tool folder with package, Backup and log) by +180 s (clock "
+    "stepped back 3 minutes) or -8 days (8 days later); ctime and the stamps of unrelated files are not moved; steps while a "
+    "command runs are out of scope",
     "systemctl is replaced by a stand-in that always succeeds and records its argv plus the hashes of the four system "
     "locations at call time; failures of the real service manager are out of scope",
     "the agent executable is a stand-in script answering --version (the only thing the tool runs it for); file contents "
@@ -306,6 +319,8 @@ class Judge:
     def run_once(self, beh, traced=True):
         self.n += 1
         b = {"id": beh["id"], "init": beh["init"], "cmds": beh["cmds"], "trace": traced}
+        if beh.get("clock"):
+            b["clock"] = {"after": min(beh["clock"]["after"], len(beh["cmds"]) - 1), "shift": beh["clock"]["shift"]}
         obs = replay_many(self.bin, [b], self.c.seed, 1, self.argv, timeout=600, tag="j",
                           layout=beh.get("layout", "separate"))[beh["id"]]
         ok, why, _ = validate_trace(self.c, "SetupTrace", "SetupTrace.cfg", rows_of(beh, obs),
@@ -329,7 +344,8 @@ def report(c, beh, obs, why, diffs, what):
             bad = s
             break
     layout = beh.get("layout", "separate")
-    case = {"init": beh["init"], "cmds": beh["cmds"], "layout": layout, "observed": slim(obs), "expected": beh.get("steps"),
+    case = {"init": beh["init"], "cmds": beh["cmds"], "layout": layout, "clock": beh.get("clock"),
+            "observed": slim(obs), "expected": beh.get("steps"),
             "divergence": [list(d) for d in diffs[:5]], "rejected_by": why}
     if bad is not None:
         sig = {"kind": "restore-delete-backup-arg"}
@@ -349,6 +365,12 @@ def report(c, beh, obs, why, diffs, what):
                     "sys=%r bak=%r%s" % (layout, last["sys"], last["bak"],
                                          ", backup file IS the live inode for %s" % last["bak_is_live_inode"]
                                          if last.get("bak_is_live_inode") else ""))
+        if beh.get("clock"):
+            ck = beh["clock"]
+            sig["clock"] = ck.get("name", "stepped")
+            msg += ("; the wall clock was stepped %s command %d (file time stamps moved by %+d s; the backed-up executable "
+                    "then looked %s s old)" % ("after" if ck["after"] >= 0 else "before", max(ck["after"], 0) + 1, ck["shift"],
+                                               (obs.get("clock_stepped") or {}).get("backup_exe_age_s")))
     c.violation(msg, sig, case)
     return sig
 
@@ -446,6 +468,18 @@ def _run(c):
         raise tlcmod.TlcError("Setup_linkbackup.cfg: the design variant 'backup by hard link + in-place overwrite' on one "
                               "file system was expected to violate RoundTrip (anti-vacuity of SameFs); got %s"
                               % (r_ls.invariant_violated or r_ls.error_lines[:2] or "no violation"))
+    r_sc0 = c.tlc("Setup", "Setup_stalecheck_steadyclock.cfg", workers=8, timeout=300)
+    if not r_sc0.ok:
+        raise tlcmod.TlcError("Setup_stalecheck_steadyclock.cfg: the stale-check variant must equal the design under a steady "
+                              "clock: %s" % (r_sc0.invariant_violated or r_sc0.error_lines[:3]))
+    r_sc = c.tlc("Setup", "Setup_stalecheck.cfg", workers=8, coverage=False, expect_ok=False, timeout=300)
+    if r_sc.invariant_violated != "RoundTrip":
+        raise tlcmod.TlcError("Setup_stalecheck.cfg: the design variant 'restore refuses a backup that does not look at most 7 "
+                              "days old' was expected to violate RoundTrip when the clock is stepped (anti-vacuity of "
+                              "ClockSteps); got %s" % (r_sc.invariant_violated or r_sc.error_lines[:2] or "no violation"))
+    c.extra["design_variants_clock"] = [
+        {"cfg": "Setup_stalecheck_steadyclock.cfg", "ClockSteps": False, "StaleCheck": True, "result": "all properties hold (steady clock: as the design)"},
+        {"cfg": "Setup_stalecheck.cfg", "ClockSteps": True, "StaleCheck": True, "result": "rejected: RoundTrip", "expected_violation": "RoundTrip"}]
     c.extra["design_variants"] = [
         {"cfg": "Setup_samefs.cfg", "SameFs": True, "LinkBackup": False, "result": "all properties hold; same graph as Setup.cfg"},
         {"cfg": "Setup_linkbackup_otherfs.cfg", "SameFs": False, "LinkBackup": True, "result": "all properties hold (every link fails, copies as the design)"},
@@ -484,21 +518,31 @@ def _run(c):
     # 3a. the statement's own scenario, first and traced: a version installed; backup; install another version;
     #     restore with and without backup deletion
     reported = set()
-    for third, layout in [(t, lay) for lay in LAYOUTS for t in ("restoreT", "restoreF")]:
+    stmt_clock = []       # the clock-stepped statement scenarios run with the batch of 3b (both layouts, traced)
+    for third, layout, clk in [(t, lay, ck) for ck in [None] + sorted(CLOCKS) for lay in LAYOUTS for t in ("restoreT", "restoreF")]:
         cand = [b for b in behs if b["cmds"][:3] == ["backup", "install", third] and b["init"]["sys"]["exe"] == "a"
                 and b["init"]["pkg"]["exe"] == "p" and b["init"]["bak"]["exe"] == "absent"]
         if not cand:
             raise util.ToolError("generator did not produce the statement's scenario")
         b = dict(cand[0])
-        b["id"] = "stmt-" + third + ("" if layout == "separate" else SAMEFS_SUFFIX)
+        b["id"] = "stmt-" + third + ("@" + clk if clk else "") + ("" if layout == "separate" else SAMEFS_SUFFIX)
         b["layout"] = layout
         b["cmds"], b["steps"] = b["cmds"][:3], b["steps"][:3]
-        ok, why, obs = judge.decide(b, "statement scenario (%s)" % layout)
+        if clk:
+            b["clock"] = {"name": clk, "after": 0, "shift": CLOCKS[clk]}      # stepped right after the backup
+            if layout == "separate" and (spelling or third != "restoreF"):
+                del b["layout"]
+                stmt_clock.append(b)
+            continue
+        ok, why, obs = judge.decide(b, "statement scenario (%s%s)" % (layout, ", clock " + clk if clk else ""))
+        if clk and not (obs.get("clock_stepped") or {}).get("files"):
+            raise util.ToolError("vacuity: the clock step of %s moved no time stamp" % b["id"])
         diffs = compare(b, obs)
-        c.count(json.dumps([init_key(b), b["cmds"], layout]))
+        c.count(json.dumps([init_key(b), b["cmds"], layout, clk]))
         if ok:
             c.traces_validated += 1
             c.sample({"init": {k: b["init"][k]["exe"] for k in ("sys", "bak", "pkg")}, "cmds": b["cmds"], "layout": layout,
+                      "clock": dict(b["clock"], **(obs.get("clock_stepped") or {})) if clk else None,
                       "observed": [{"c": s["c"], "argv": s["argv"], "exit": s["exit"], "sys": s["sys"], "bak": s["bak"],
                                     "calls": [cl["v"] for cl in s["calls"]], "strace": s.get("strace")} for s in obs["steps"]]})
             if diffs:
@@ -510,9 +554,37 @@ def _run(c):
     # 3b. S->I over the chosen behaviours, every one of them in both layouts (the two sets of workers run side by side)
     jobs = [{"id": b["id"], "init": b["init"], "cmds": b["cmds"], "trace": b["id"] in traced_ids} for b in chosen]
     rnd.shuffle(jobs)
+    # the clock dimension: every 10th of the behaviours in which a restore finds a backup (one present from the start or
+    # taken by an earlier command) once more, the clock stepped at a seeded point between the backup and that restore
+    withrestore = []
+    for b in sorted(chosen, key=lambda x: x["id"]):
+        for r, cm in enumerate(b["cmds"]):
+            if cm not in ("restoreT", "restoreF"):
+                continue
+            if (b["steps"][r - 1]["bak"]["exe"] if r else b["init"]["bak"]["exe"]) == "absent":
+                continue                 # this restore finds no backup
+            taken = [j for j in range(r) if b["cmds"][j] == "backup"]
+            lo = taken[-1] if taken else -1          # -1: the backup was there from the start; step before any command
+            withrestore.append((b, lo, r))
+            break
+    clock_jobs = []
+    for k, (b, lo, r) in enumerate(withrestore[rnd.randrange(10)::10]):
+        name = sorted(CLOCKS)[k % len(CLOCKS)]
+        cb = dict(b, id=b["id"] + "@" + name, clock={"name": name, "after": rnd.randrange(lo, r), "shift": CLOCKS[name]})
+        by_id[cb["id"]] = cb
+        clock_jobs.append({"id": cb["id"], "init": cb["init"], "cmds": cb["cmds"], "trace": False, "clock": cb["clock"]})
+    for cb in stmt_clock:
+        by_id[cb["id"]] = cb
+        clock_jobs.append({"id": cb["id"], "init": cb["init"], "cmds": cb["cmds"], "trace": True, "clock": cb["clock"]})
+    if len(clock_jobs) <= len(stmt_clock) or len(stmt_clock) != (2 if spelling else 1) * len(CLOCKS):
+        raise util.ToolError("vacuity: no behaviour with a restore that finds a backup to replay under a clock step")
+    c.extra["clock_step_behaviours"] = {"per_layout": len(clock_jobs) - len(stmt_clock), "of": len(withrestore),
+                                        "shifts_s": CLOCKS, "plus": "the statement scenarios, stepped right after the backup"}
+    jobs += clock_jobs
     jobs_same = [dict(j, id=j["id"] + SAMEFS_SUFFIX) for j in jobs]
-    for b in chosen:
+    for b in [by_id[j["id"]] for j in jobs]:
         by_id[b["id"] + SAMEFS_SUFFIX] = dict(b, id=b["id"] + SAMEFS_SUFFIX, layout="samefs")
+    chosen_n = len(jobs)
     t = util.Timer()
     nw = 12 if thorough else 8
     ws_sep = replay_start(setup_bin, jobs, c.seed, nw, argv, tag="w", layout="separate")
@@ -525,20 +597,25 @@ def _run(c):
             err = err or ex
     if err:
         raise err
-    if len(observed) != 2 * len(chosen):
-        raise util.ToolError("replayed %d of %d behaviours" % (len(observed), 2 * len(chosen)))
-    util.log("replayed %d behaviours (%d in each layout) in %ss" % (len(observed), len(chosen), t.s()))
-    c.extra["layouts"] = {lay: dict(LINK_PROBES.get(lay, {}), behaviours=len(chosen)) for lay in LAYOUTS}
+    if len(observed) != 2 * chosen_n:
+        raise util.ToolError("replayed %d of %d behaviours" % (len(observed), 2 * chosen_n))
+    util.log("replayed %d behaviours (%d in each layout, %d of them under a clock step) in %ss"
+             % (len(observed), chosen_n, len(clock_jobs), t.s()))
+    for bid, obs in observed.items():
+        if by_id[bid].get("clock") and not (obs.get("clock_stepped") or {}).get("files"):
+            raise util.ToolError("vacuity: the clock step of %s moved no time stamp" % bid)
+    c.extra["layouts"] = {lay: dict(LINK_PROBES.get(lay, {}), behaviours=chosen_n) for lay in LAYOUTS}
     ncmds = 0
     mismatching = {}
     for bid, obs in observed.items():
         b = by_id[bid]
         ncmds += len(obs["steps"])
-        c.count(json.dumps([init_key(b), b["cmds"]] + ([b["layout"]] if b.get("layout", "separate") != "separate" else [])))
+        lay = b.get("layout", "separate") + ("+" + b["clock"]["name"] if b.get("clock") else "")
+        c.count(json.dumps([init_key(b), b["cmds"]] + ([lay] if lay != "separate" else [])))
         diffs = compare(b, obs)
         if diffs:
             d = diffs[0]
-            mismatching.setdefault((obs["steps"][d[0]]["c"], d[1], b.get("layout", "separate")), []).append((b, obs, diffs))
+            mismatching.setdefault((obs["steps"][d[0]]["c"], d[1], lay), []).append((b, obs, diffs))
     c.count(n=ncmds)
     c.extra["replayed_behaviours"] = len(observed)
     c.extra["replayed_commands"] = ncmds
@@ -570,7 +647,8 @@ def _run(c):
     for key, lst in sorted(mismatching.items()):
         lst.sort(key=lambda x: (x[2][0][0], len(x[0]["cmds"]), x[0]["id"]))
         remaining, rejected = list(lst), 0
-        while remaining and rejected < 4:
+        limit = 1 if "+" in key[2] else 4        # clock-stepped groups: one witness per kind of divergence is enough
+        while remaining and rejected < limit:
             rows, owner = [], []
             for idx, (b2, o2, _) in enumerate(remaining):
                 r = rows_of(b2, o2)
@@ -665,7 +743,9 @@ def _run(c):
               "(quick: every 3-command sequence extended by one seeded 4th command; thorough: every 4-command sequence plus "
               "a seeded sample of 5-command ones); each is run on the real release binary in an overlay mount namespace, once "
               "per file-system layout (tool folder on another mount than /etc and /usr; tool folder and all four system "
-              "directories on one mount, link(2) between them proven to succeed), and "
+              "directories on one mount, link(2) between them proven to succeed), the statement scenarios and a seeded tenth of the "
+              "behaviours whose restore finds a backup once more per layout with the wall clock stepped between two commands "
+              "(file time stamps moved +3 min / -8 days), and "
               "the projected state (4 system locations, backup, package, rest digest, exit code, systemctl calls with "
               "snapshots) is compared with the model after every command; every kind of divergence is decided by the "
               "property-level trace spec SetupTrace.tla (re-executed, traced with strace). I->S: all observations are "
@@ -690,6 +770,8 @@ def _replay(c, path):
     judge = Judge(c, setup_bin, {"restoreF": spelling} if spelling else {})
     b = {"id": "replay", "init": case["init"], "cmds": case["cmds"], "steps": case.get("expected") or [],
          "layout": case.get("layout", "separate")}
+    if case.get("clock"):
+        b["clock"] = case["clock"]
     ok, why, obs = judge.decide(b, "replay")
     c.count(json.dumps(b["cmds"]))
     if ok:
